@@ -178,6 +178,23 @@ func c14(r *engine.Report, p *engine.Program) {
 		okU := ubs != nil && len(callsTo(ubs, "(*workceptor.StatusFileData).UpdateFullStatus")) == 1 && len(statusOpsIn(p, ubs)) == 0
 		r.Check("R3-read-modify-write", "StatusFileData.UpdateBasicStatus delegates to UpdateFullStatus", ufs.Pos(), okU, "basic updates are read-modify-write too", "UpdateBasicStatus no longer delegates to UpdateFullStatus")
 	}
+	// R3b the daemon-side wrappers always perform the file update (no shortcut on the cached copy)
+	for _, spec := range [][2]string{{"(*workceptor.BaseWorkUnit).UpdateBasicStatus", "(*workceptor.StatusFileData).UpdateBasicStatus"}, {"(*workceptor.BaseWorkUnit).UpdateFullStatus", "(*workceptor.StatusFileData).UpdateFullStatus"}} {
+		fn := p.Func(spec[0])
+		if fn == nil {
+			r.Broken("%s not found", spec[0])
+			continue
+		}
+		calls := callsTo(fn, spec[1])
+		var cs []ssa.Instruction
+		for _, c := range calls {
+			cs = append(cs, c)
+		}
+		bad := engine.Reach(fn, nil, nil, func(in ssa.Instruction) bool { return isOneOf(in, cs) }, func(in ssa.Instruction) bool { _, ok := in.(*ssa.Return); return ok })
+		r.Check("R3-read-modify-write", spec[0]+": always goes to the stored record", fn.Pos(), len(cs) == 1 && bad == nil,
+			"every path to a return passes the locked read-modify-write of the status file", "the wrapper can return without touching the stored record (e.g. a 'nothing changed' shortcut decided on the cached in-memory copy): an update is silently dropped when another writer changed the file in between")
+	}
+
 	// R4 who may overwrite the whole record
 	checkCallers(r, p, "R4-save-callers", "(*workceptor.StatusFileData).Save", "(*workceptor.BaseWorkUnit).Save")
 	{
